@@ -543,13 +543,13 @@ def _variant(rng, case):
         # "If chunks is specified but new_axis is not, then it is inferred to add the necessary number of axes on the left"
         case["infer"] = case["newax"] == [0] and case["chk"] == "same" and rng.random() < 0.5
     if case["fam"] == "bw":
-        # align_arrays=True (the default) re-chunks inputs to common chunks: used where that is the identity, i.e. all
-        # arguments that have an index agree on its chunks (extent-1 axes excepted)
+        # align_arrays=True (the default) re-chunks inputs to common chunks: used only where that is the identity, i.e. all
+        # axes that carry an index have the same chunks (unify_chunks also decides which axis defines the output chunks
+        # when extents differ; that is outside this specification)
         byix = {}
         for a, ind in zip(case["arrs"], case["inds"]):
             for q, ix in enumerate(ind):
-                if a["shape"][q] != 1:
-                    byix.setdefault(ix, set()).add(tuple(a["chunks"][q]))
+                byix.setdefault(ix, set()).add(tuple(a["chunks"][q]))
         nozero = all(c > 0 for a in case["arrs"] for ch in a["chunks"] for c in ch)       # (unify_chunks merges empty chunks away)
         case["align"] = nozero and all(len(v) == 1 for v in byix.values()) and rng.random() < 0.5
     if case["fam"] != "gu":
